@@ -10,17 +10,17 @@
 (*           each created file went: "outdir" | "inputdir" | "elsewhere")] *)
 (***************************************************************************)
 EXTENDS Naturals, Sequences, FiniteSets, TLC, Json
-V10 == {"v10xml", "v10json", "v10jsontab", "v10yaml"}        \* v10jsontab: JSON indented with tab characters
+V10 == {"v10xml", "v10xmlent", "v10json", "v10jsontab", "v10yaml"}        \* v10jsontab: JSON indented with tab characters; v10xmlent: XML using entities declared in its DOCTYPE
 V11 == {"v11xml", "v11json", "v11yaml"}
 Bad == {"empty", "text", "malformed", "foreign"}
-ExtOf(k) == IF k \in {"v10xml", "v11xml"} THEN "xml" ELSE IF k \in {"v10json", "v10jsontab", "v11json"} THEN "json" ELSE "yaml"
+ExtOf(k) == IF k \in {"v10xml", "v10xmlent", "v11xml"} THEN "xml" ELSE IF k \in {"v10json", "v10jsontab", "v11json"} THEN "json" ELSE "yaml"
 FileKinds == {[kind |-> k, ext |-> ExtOf(k)] : k \in V10 \cup V11} \cup {[kind |-> k, ext |-> e] : k \in Bad, e \in {"xml", "json", "yaml"}}
 Tools == {"odmlconvert", "odmltordf"}
 \* the format converter works on directories of files of the one kind its target expects
 FcTargets == {"v1_1", "odml", "xml", "pretty-xml", "n3", "turtle", "ttl", "ntriples", "nt", "nt11", "trig", "json-ld"}
 Convertible(tool, k) == IF tool = "odmlconvert" THEN k \in V10
                         ELSE IF tool = "odmltordf" THEN k \in V10 \cup V11
-                        ELSE IF tool = "v1_1" THEN k = "v10xml" ELSE k = "v11xml"
+                        ELSE IF tool = "v1_1" THEN k \in {"v10xml", "v10xmlent"} ELSE k = "v11xml"
 Handled(f, recursive) == f.where = "top" \/ recursive
 \* REFERENCE: what handling file f leaves behind
 Expected(tool, f, recursive) ==
